@@ -499,6 +499,60 @@ impl Board {
     }
 }
 
+/// Verification hook: all private fields of the [`Board`] as plain data.
+#[cfg(any(kani, feature = "verif-hooks"))]
+#[derive(Debug, Clone, Copy, PartialEq)]
+pub struct VerifBoardParts {
+    pub digital_input1: u8,
+    pub digital_output1: u8,
+    pub digital_output2: u8,
+    pub temp: f32,
+    pub dasr: u8,
+    pub daisr: u8,
+    pub daicr: u8,
+    pub analog_inputs: [f32; 2],
+    pub analog_outputs: [f32; 2],
+    pub fan_rpm: usize,
+    pub uio_dir: [bool; 3],
+}
+
+#[cfg(any(kani, feature = "verif-hooks"))]
+impl Board {
+    /// Verification hook: read all private fields.
+    pub fn verif_parts(&self) -> VerifBoardParts {
+        VerifBoardParts {
+            digital_input1: self.digital_input1,
+            digital_output1: self.digital_output1,
+            digital_output2: self.digital_output2,
+            temp: self.temp,
+            dasr: self.dasr.bits(),
+            daisr: self.daisr.bits(),
+            daicr: self.daicr.bits(),
+            analog_inputs: self.analog_inputs,
+            analog_outputs: self.analog_outputs,
+            fan_rpm: self.fan_rpm,
+            uio_dir: self.uio_dir,
+        }
+    }
+    /// Verification hook: build a board in an arbitrary state (bits outside
+    /// the defined flags are dropped).
+    pub fn verif_assemble(parts: VerifBoardParts) -> Self {
+        Board {
+            digital_input1: parts.digital_input1,
+            digital_output1: parts.digital_output1,
+            digital_output2: parts.digital_output2,
+            temp: parts.temp,
+            dasr: DASR::from_bits_truncate(parts.dasr),
+            daisr: DAISR::from_bits_truncate(parts.daisr),
+            daicr: DAICR::from_bits_truncate(parts.daicr),
+            analog_inputs: parts.analog_inputs,
+            analog_outputs: parts.analog_outputs,
+            fan_rpm: parts.fan_rpm,
+            uio_dir: parts.uio_dir,
+        }
+    }
+}
+
 #[cfg(test)]
 mod tests {
     use super::*;
